@@ -76,7 +76,7 @@ fn main() {
         "replay" if args.len() == 3 => {
             let path = std::path::Path::new(&args[2]);
             let s = std::fs::read_to_string(path).unwrap_or_else(|e| engine::machinery_error(&format!("{e}")));
-            let v: serde_json::Value = serde_json::from_str(&s).unwrap_or_else(|e| engine::machinery_error(&format!("{e}")));
+            let v: serde_json::Value = engine::parse_json(&s).unwrap_or_else(|e| engine::machinery_error(&e));
             let id = v["check"].as_str().unwrap_or_else(|| engine::machinery_error("replay file has no check id")).to_string();
             engine::replay_file(find(&id), path)
         }
